@@ -2,6 +2,7 @@ package checks
 
 import (
 	"fmt"
+	"github.com/jsightapi/jsight-api-go-library/directive"
 	"time"
 
 	"verif/internal/doc"
@@ -33,6 +34,8 @@ func pasteHosts() []pasteHost {
 			{n("SERVER", "@ms").WithParen().WithKids(n("BaseUrl", "\"http://m/\""))},
 			{n("ENUM", "@me").WithBody("[\"x\", \"y\"]"), n("TYPE", "@m1").WithBody("{\n  \"k\": \"x\" // {enum: @me}\n}")},
 			{n("TAG", "@mtag").WithAnn("T"), n("GET", "/tg").WithParen().WithKids(n("Tags", "@mtag"), n("200", "any"))},
+			// a URL block that is not parenthesised, left by the method with its own path that follows it
+			{n("URL", "/mu2").WithKids(n("GET").WithKids(n("200", "any"))), n("POST", "/mp2").WithKids(n("201", "empty"))},
 		}, func(p *doc.Node, _ bool) []*doc.Node {
 			return []*doc.Node{n("TYPE", "@before", "any"), p, n("TYPE", "@after", "empty")}
 		}},
@@ -160,40 +163,90 @@ func runC07(c *fw.Ctx) {
 			for _, after := range []bool{false, true} {
 				for depth := 1; depth <= 3; depth++ {
 					for _, paren := range []bool{false, true} {
-						var macros []*doc.Node
-						// @m1 holds the body; @m2 pastes @m1; @m3 pastes @m2
-						macros = append(macros, doc.N("MACRO", "@mac1").WithParen().WithKids(doc.CloneAll(body)...))
-						for d := 2; d <= depth; d++ {
-							macros = append(macros, doc.N("MACRO", fmt.Sprintf("@mac%d", d)).WithParen().WithKids(doc.N("PASTE", fmt.Sprintf("@mac%d", d-1))))
-						}
-						use := h.build(doc.N("PASTE", fmt.Sprintf("@mac%d", depth)), paren)
-						var nodes []*doc.Node
-						nodes = append(nodes, doc.Jsight())
-						if after {
-							nodes = append(nodes, use...)
-							// macros in reverse order too: defined after use, innermost last
-							nodes = append(nodes, macros...)
-						} else {
-							nodes = append(nodes, macros...)
-							nodes = append(nodes, use...)
-						}
-						label := fmt.Sprintf("%s body%d after=%v depth=%d paren=%v", h.name, bi, after, depth, paren)
-						compare(label, nodes)
-						// the same with an extra never-pasted macro: nothing may change
-						if c.Next() {
-							c.Count("evaluations", 1)
-							extra := append(doc.CloneAll(nodes), doc.N("MACRO", "@unused").WithParen().WithKids(
-								doc.N("ENUM", "@neverE").WithBody("[1, 2]"),
-								doc.N("TYPE", "@neverT").WithBody("{\n  \"k\": 1 // {enum: @neverE}\n}"),
-								doc.N("GET", "/never").WithKids(doc.N("200", "any"))))
-							a, b := run1(doc.Text(nodes)), run1(doc.Text(extra))
-							if j, s := sameResult(a, b); j && !s {
-								if fw.Confirm(func() bool { _, s := sameResult(run1(doc.Text(nodes)), run1(doc.Text(extra))); return !s }) {
-									c.Violate("unused-macro-contributes", "C07:unused-macro", fmt.Sprintf("%s: adding a never-pasted macro changes the result: %s vs %s", label, a.Short(), b.Short()),
-										map[string]interface{}{"without": doc.Text(nodes), "with": doc.Text(extra)})
+						for _, holderParen := range []bool{true, false} {
+							if !holderParen && !after {
+								continue // a macro without parentheses takes everything that follows: it must stand last
+							}
+							var macros []*doc.Node
+							// @m1 holds the body; @m2 pastes @m1; @m3 pastes @m2
+							holder := doc.N("MACRO", "@mac1").WithKids(doc.CloneAll(body)...)
+							holder.Paren = holderParen
+							for d := 2; d <= depth; d++ {
+								macros = append(macros, doc.N("MACRO", fmt.Sprintf("@mac%d", d)).WithParen().WithKids(doc.N("PASTE", fmt.Sprintf("@mac%d", d-1))))
+							}
+							use := h.build(doc.N("PASTE", fmt.Sprintf("@mac%d", depth)), paren)
+							var nodes []*doc.Node
+							nodes = append(nodes, doc.Jsight())
+							if after {
+								nodes = append(nodes, use...)
+								// defined after use; the macro that holds the body last
+								nodes = append(nodes, macros...)
+								nodes = append(nodes, holder)
+							} else {
+								nodes = append(nodes, holder)
+								nodes = append(nodes, macros...)
+								nodes = append(nodes, use...)
+							}
+							label := fmt.Sprintf("%s body%d after=%v depth=%d paren=%v macro-paren=%v", h.name, bi, after, depth, paren, holderParen)
+							compare(label, nodes)
+							if !holderParen {
+								continue
+							}
+							// the same with an extra never-pasted macro: nothing may change
+							if c.Next() {
+								c.Count("evaluations", 1)
+								extra := append(doc.CloneAll(nodes), doc.N("MACRO", "@unused").WithParen().WithKids(
+									doc.N("ENUM", "@neverE").WithBody("[1, 2]"),
+									doc.N("TYPE", "@neverT").WithBody("{\n  \"k\": 1 // {enum: @neverE}\n}"),
+									doc.N("GET", "/never").WithKids(doc.N("200", "any"))))
+								a, b := run1(doc.Text(nodes)), run1(doc.Text(extra))
+								if j, s := sameResult(a, b); j && !s {
+									if fw.Confirm(func() bool { _, s := sameResult(run1(doc.Text(nodes)), run1(doc.Text(extra))); return !s }) {
+										c.Violate("unused-macro-contributes", "C07:unused-macro", fmt.Sprintf("%s: adding a never-pasted macro changes the result: %s vs %s", label, a.Short(), b.Short()),
+											map[string]interface{}{"without": doc.Text(nodes), "with": doc.Text(extra)})
+									}
 								}
 							}
 						}
+					}
+				}
+			}
+		}
+	}
+	// (a2) a never-pasted macro contributes nothing, whatever its body: every body of every host,
+	// the macro parenthesised or not (standing last)
+	for _, h := range pasteHosts() {
+		for bi, body := range h.bodies {
+			for _, mp := range []bool{true, false} {
+				admitted := true
+				for _, bn := range body {
+					if t, err := directive.NewDirectiveType(bn.Kw); err != nil || !directive.Macro.IsAllowedForDirectiveContext(t) {
+						admitted = false // (the library's public admissibility table, as in C06)
+					}
+				}
+				if !admitted {
+					continue
+				}
+				if !c.Next() {
+					continue
+				}
+				c.Count("evaluations", 1)
+				baseNodes := []*doc.Node{doc.Jsight(), doc.N("TYPE", "@keep", "any"), doc.N("GET", "/keep").WithParen().WithKids(doc.N("200", "any"))}
+				m := doc.N("MACRO", "@unused").WithKids(doc.CloneAll(body)...)
+				m.Paren = mp
+				with := append(doc.CloneAll(baseNodes), m)
+				ta, tb := doc.Text(baseNodes), doc.Text(with)
+				c.Distinct(tb)
+				a, b := run1(ta), run1(tb)
+				if !a.OK() {
+					c.Note("harness_fault", "C07 (a2): the base document is not accepted: "+a.Short())
+					c.NotExhaustive("vacuous base document")
+					continue
+				}
+				if j, same := sameResult(a, b); j && !same {
+					if fw.Confirm(func() bool { _, s2 := sameResult(run1(ta), run1(tb)); return !s2 }) {
+						c.Violate("unused-macro-contributes", "C07:unused-macro", fmt.Sprintf("%s body%d macro-paren=%v: adding a never-pasted macro changes the result: %s vs %s", h.name, bi, mp, a.Short(), b.Short()),
+							map[string]interface{}{"without": ta, "with": tb})
 					}
 				}
 			}
